@@ -4,11 +4,12 @@ import TakVerif.Proofs.C06Step
 namespace C06
 open Tak Tak.PN Spec.Game
 
-variable {S M : Type} (G : Game S M) (att : Color)
+variable {S M : Type} (G : Game S M) (att : Color) (root : S)
 
-/-- the part of the tree above the focus `f` (standing for `s`, ancestors' positions `hs`) is sound -/
+/-- the part of the tree above the focus `f` (standing for `s`, ancestors' positions `hs`) is sound;
+the topmost node stands for `root` -/
 def CrumbsOK (dl : Bool) : List (Crumb M) → List S → S → Node M → Prop
-  | [], hs, _, _ => hs = []
+  | [], hs, s, _ => hs = [] ∧ s = root
   | cr :: ups, hs, s, f =>
     ∃ p hs', hs = p :: hs' ∧
       cr.node.expanded = true ∧
@@ -22,10 +23,10 @@ def CrumbsOK (dl : Bool) : List (Crumb M) → List S → S → Node M → Prop
 def ZipOK (st : St S M) : Prop :=
   ∃ s hs, st.stack = s :: hs ∧
     TreeOK G att st.depthLimited hs s st.focus ∧
-    CrumbsOK G att st.depthLimited st.up hs s st.focus
+    CrumbsOK G att root st.depthLimited st.up hs s st.focus
 
 theorem CrumbsOK.mono (dl' : Bool) : ∀ (ups : List (Crumb M)) (dl : Bool) (hs : List S) (s : S) (f : Node M),
-    CrumbsOK G att dl ups hs s f → CrumbsOK G att (dl || dl') ups hs s f := by
+    CrumbsOK G att root dl ups hs s f → CrumbsOK G att root (dl || dl') ups hs s f := by
   intro ups
   induction ups with
   | nil => intro dl hs s f h; exact h
@@ -40,9 +41,9 @@ theorem CrumbsOK.mono (dl' : Bool) : ∀ (ups : List (Crumb M)) (dl : Bool) (hs 
 /-- replacing the focus by a node with the same move and kind keeps the upper part sound, provided
 an "early stop" witness stays one -/
 theorem CrumbsOK.replace {dl : Bool} {ups : List (Crumb M)} {hs : List S} {s : S} {f f' : Node M}
-    (h : CrumbsOK G att dl ups hs s f) (hm : f'.move = f.move) (ha : f'.isAnd = f.isAnd)
+    (h : CrumbsOK G att root dl ups hs s f) (hm : f'.move = f.move) (ha : f'.isAnd = f.isAnd)
     (hw : f.expanded = false → f.delta = 0 → f'.expanded = false ∧ f'.delta = 0) :
-    CrumbsOK G att dl ups hs s f' := by
+    CrumbsOK G att root dl ups hs s f' := by
   cases ups with
   | nil => exact h
   | cons cr ups =>
@@ -96,10 +97,10 @@ theorem SameRest.trans {a b c : St S M} (h1 : SameRest a b) (h2 : SameRest b c) 
   ⟨h2.1.trans h1.1, h2.2.1.trans h1.2.1, h2.2.2.1.trans h1.2.2.1, h2.2.2.2.trans h1.2.2.2⟩
 
 theorem descend_ok (st st' : St S M) (left : List (Node M)) (c : Node M) (right : List (Node M))
-    (hz : ZipOK G att st) (hexp : st.focus.expanded = true)
+    (hz : ZipOK G att root st) (hexp : st.focus.expanded = true)
     (hch : st.focus.children = left.reverse ++ c :: right)
     (h : descend G st left c right = some st') :
-    ZipOK G att st' ∧ st'.focus = c ∧ st'.up.length = st.up.length + 1 ∧ SameRest st st' := by
+    ZipOK G att root st' ∧ st'.focus = c ∧ st'.up.length = st.up.length + 1 ∧ SameRest st st' := by
   obtain ⟨s, hs, hst, ht, hc⟩ := hz
   unfold descend at h
   rw [hst] at h
@@ -132,8 +133,8 @@ theorem descend_ok (st st' : St S M) (left : List (Node M)) (c : Node M) (right 
       · rw [← hch]; exact h1
       · rw [hch] at h1; simp at h1
 
-theorem ascend_ok (st st' : St S M) (hz : ZipOK G att st) (h : ascend st = some st') :
-    ZipOK G att st' ∧ st'.up.length + 1 = st.up.length ∧ SameRest st st' := by
+theorem ascend_ok (st st' : St S M) (hz : ZipOK G att root st) (h : ascend st = some st') :
+    ZipOK G att root st' ∧ st'.up.length + 1 = st.up.length ∧ SameRest st st' := by
   obtain ⟨s, hs, hst, ht, hc⟩ := hz
   unfold ascend at h
   split at h
@@ -157,13 +158,13 @@ theorem ascend_ok (st st' : St S M) (hz : ZipOK G att st) (h : ascend st = some 
         · exact hsib c (by simp [h1])
       · intro _; exact Or.inl hcov
       · intro h0; simp only at h0; rw [hx] at h0; exact absurd h0 (by simp)
-    · exact CrumbsOK.replace G att hrest rfl rfl (by intro h0; rw [hx] at h0; exact absurd h0 (by simp))
+    · exact CrumbsOK.replace G att root hrest rfl rfl (by intro h0; rw [hx] at h0; exact absurd h0 (by simp))
   · exact absurd h (by simp)
 
 
-theorem select_ok : ∀ (fuel : Nat) (st st' : St S M), ZipOK G att st →
+theorem select_ok : ∀ (fuel : Nat) (st st' : St S M), ZipOK G att root st →
     selectMostProving G fuel st = .ok st' →
-    ZipOK G att st' ∧ st'.focus.expanded = false ∧ st.up.length ≤ st'.up.length ∧ SameRest st st' := by
+    ZipOK G att root st' ∧ st'.focus.expanded = false ∧ st.up.length ≤ st'.up.length ∧ SameRest st st' := by
   intro fuel
   induction fuel with
   | zero => intro st st' _ h; simp [selectMostProving] at h
@@ -180,7 +181,7 @@ theorem select_ok : ∀ (fuel : Nat) (st st' : St S M), ZipOK G att st →
         split at h
         · exact absurd h (by simp)
         · rename_i st1 hd
-          obtain ⟨hz1, _, hlen, hsame⟩ := descend_ok G att st st1 left c right hz hexp hsplit hd
+          obtain ⟨hz1, _, hlen, hsame⟩ := descend_ok G att root st st1 left c right hz hexp hsplit hd
           obtain ⟨hz2, hx2, hlen2, hsame2⟩ := ih st1 st' hz1 h
           exact ⟨hz2, hx2, by omega, hsame.trans hsame2⟩
     · rename_i hexp
@@ -188,9 +189,9 @@ theorem select_ok : ∀ (fuel : Nat) (st st' : St S M), ZipOK G att st →
       subst h
       exact ⟨hz, by simpa using hexp, Nat.le_refl _, SameRest.rfl' st⟩
 
-theorem ascendTo_ok (base : Nat) : ∀ (fuel : Nat) (st st' : St S M), ZipOK G att st →
+theorem ascendTo_ok (base : Nat) : ∀ (fuel : Nat) (st st' : St S M), ZipOK G att root st →
     ascendTo base fuel st = some st' →
-    ZipOK G att st' ∧ st'.up.length = base ∧ SameRest st st' := by
+    ZipOK G att root st' ∧ st'.up.length = base ∧ SameRest st st' := by
   intro fuel
   induction fuel with
   | zero =>
@@ -213,7 +214,7 @@ theorem ascendTo_ok (base : Nat) : ∀ (fuel : Nat) (st st' : St S M), ZipOK G a
       | some st1 =>
         rw [ha] at h
         simp only [Option.bind_some] at h
-        obtain ⟨hz1, _, hs1⟩ := ascend_ok G att st st1 hz ha
+        obtain ⟨hz1, _, hs1⟩ := ascend_ok G att root st st1 hz ha
         obtain ⟨hz2, hb2, hs2⟩ := ih st1 st' hz1 h
         exact ⟨hz2, hb2, hs1.trans hs2⟩
 
